@@ -28,7 +28,7 @@ U_EPS = {"c": 2, "s": -2}
 
 AXES = {
     "K": (["vec", "mat", None], ["vec", "mat", None]),
-    "baseline": (["vec", None], ["vec", None]),
+    "baseline": (["vec", None], ["vec", None, "scalar"]),
     "W": (["mat", "vec"], ["mat", "vec", None]),
     "lb": (["nonneg", "any"], ["nonneg", "any"]),
     "bs": ([1, "sym"], [1, "sym"]),
@@ -144,6 +144,7 @@ def check(rep, an, tier):
         if cfg["bs"] == "sym":
             R.rule_stack(rep, res, entry)
             R.rule_sep(rep, res, entry)
+            R.rule_rowsep(rep, res, entry)
     estimator_chain(rep, an)
     rep.require("R-FLOW", 60)
     rep.require("R-QTY", 30)
@@ -164,6 +165,8 @@ def estimator_chain(rep, an):
                    {"A": "self.A", "lb": "self.lb", "ub": "self.ub", "W": "self.W", "K": "self.K", "baseline": "self.baseline",
                     "B": "B", "l2_eps": "l2_eps", "l1_eps": "l1_eps", "Epsilon": want})
         F.qty(rep, res, entry)
+        # the default variance model is the REGISTERED one: a fit with explicit targets and an explicit model must not replace it
+        R.rule_effect_free(rep, res, entry)
     # register_system: Epsilon derives from the registered filter uncertainty, else 'heteroscedastic'
     for unc in (None, "given"):
         fields = estimator_fields(K="vec", baseline="vec", uncertainty=unc)
